@@ -647,7 +647,23 @@ func (st *State) havocLocation(env *Env, m *Expr) {
 	case EIdent:
 		if m.Op == "everything" {
 			if env.callee != nil {
-				st.havocAllExcept(e.preservedNames(env.callee))
+				ex := e.preservedNames(env.callee)
+				// ghost variables are changed only by contracts: a callee cannot reach those of packages its own package
+				// does not import (callbacks into such packages are not tracked - recorded as an assumption)
+				if cp, ok := e.ld.pkgByNm[env.callee.PkgName]; ok && cp.Types != nil {
+					reach := reachablePkgs(cp.Types)
+					for _, gd := range e.specs.Ghosts {
+						if gd.IsField || gd.PkgName == "prelude" || reach[gd.PkgName] {
+							continue
+						}
+						if ex == nil {
+							ex = map[string]bool{}
+						}
+						ex["GH_"+sanitize(gd.PkgName+"_"+gd.Name)] = true
+						e.assumes["`modifies everything` of a callee does not include ghost variables of packages the callee's package does not import"] = true
+					}
+				}
+				st.havocAllExcept(ex)
 			} else {
 				st.havocAll()
 			}
@@ -988,7 +1004,8 @@ func (st *State) havocAll() { st.havocAllExcept(nil) }
 func (st *State) havocAllExcept(except map[string]bool) {
 	e := st.eng()
 	for name := range st.heap {
-		if name == "RO" || except[name] {
+		if name == "RO" || except[name] || strings.HasPrefix(name, "NC_") || strings.HasPrefix(name, "NCF_") {
+			// (call counters count the calls made by the unit's own body: a callee cannot change them)
 			continue
 		}
 		st.heapHavoc(name, e.heapSorts[name])
